@@ -117,7 +117,7 @@ func parseDeclaration(firstToken Token, tokens *TokensIter, nested bool) Compoun
 	for tokens.HasNext() {
 		i += 1
 		token := tokens.Next()
-		if state == sValue && IsLiteral(token, "!") {
+		if IsLiteral(token, "!") {
 			state = sBang
 			bangPosition = i
 		} else if ident, _ := token.(Ident); state == sBang && utils.AsciiLower(ident.Value) == "important" {
@@ -126,17 +126,8 @@ func parseDeclaration(firstToken Token, tokens *TokensIter, nested bool) Compoun
 			switch token.Kind() {
 			case KWhitespace, KComment:
 			// pass
-			case KCurlyBracketsBlock:
-				state = sValue
-				if containsNonWhitespace {
-					containsSimpleBlock = true
-				} else {
-					containsNonWhitespace = true
-				}
 			default:
 				state = sValue
-				containsNonWhitespace = true
-
 			}
 		}
 		value = append(value, token)
@@ -145,9 +136,23 @@ func parseDeclaration(firstToken Token, tokens *TokensIter, nested bool) Compoun
 	if state == sImportant {
 		value = value[:bangPosition]
 	}
+	// a top-level {} block is only allowed as the entire value
+	for _, token := range value {
+		switch token.Kind() {
+		case KWhitespace, KComment:
+		case KCurlyBracketsBlock:
+			if containsSimpleBlock {
+				containsNonWhitespace = true
+			}
+			containsSimpleBlock = true
+		default:
+			containsNonWhitespace = true
+		}
+	}
 
-	// TODO: Handle custom property names
-	if containsSimpleBlock && containsNonWhitespace {
+	// custom properties may contain {} blocks anywhere in their value
+	isCustom := len(name.Value) >= 2 && name.Value[:2] == "--"
+	if !isCustom && containsSimpleBlock && containsNonWhitespace {
 		return ParseError{pos: colon.Pos(), kind: errInvalid, Message: "Declaration contains {} block"}
 	}
 
@@ -359,27 +364,22 @@ func consumeQualifiedRule(firstToken Token, tokens *TokensIter, nested bool, sto
 
 // Consume declaration or nested rule.
 func consumeBlocksContent(firstToken Token, tokens *TokensIter) Compound {
-	var declarationTokens, semicolonToken []Token
 	if _, isCurly := firstToken.(CurlyBracketsBlock); !IsLiteral(firstToken, ";") && !isCurly {
-		for tokens.HasNext() {
-			token := tokens.Next()
-			if IsLiteral(token, ";") {
-				semicolonToken = append(semicolonToken, token)
-				break
+		// look ahead up to the next ";" without consuming
+		end := tokens.index
+		for end < len(tokens.tokens) && !IsLiteral(tokens.tokens[end], ";") {
+			end++
+		}
+		declaration := parseDeclaration(firstToken, NewIter(tokens.tokens[tokens.index:end]), true)
+		if _, isDecl := declaration.(Declaration); isDecl {
+			tokens.index = end
+			if end < len(tokens.tokens) {
+				tokens.index++ // the ";"
 			}
-			declarationTokens = append(declarationTokens, token)
-			if _, isCurly := token.(CurlyBracketsBlock); isCurly {
-				break
-			}
+			return declaration
 		}
 	}
-	declaration := parseDeclaration(firstToken, NewIter(declarationTokens), true)
-	if _, isDecl := declaration.(Declaration); isDecl {
-		return declaration
-	} else {
-		tokens = NewIter(append(append(declarationTokens, semicolonToken...), tokens.tail()...))
-		return consumeQualifiedRule(firstToken, tokens, true, true)
-	}
+	return consumeQualifiedRule(firstToken, tokens, true, true)
 }
 
 // Parse a non-top-level `rule list`.
